@@ -241,6 +241,10 @@ def gen_grid(rng):
             start = [rng.randint(1, s) for s in stop]
         else:
             start = rng.randint(0, min(stop))
+    elif rng.random() < 0.2 and dims > 1:
+        # vector start, scalar stop: the start alone carries the number of dimensions
+        stop = rng.randint(2, 5 if dims < 4 else 4)
+        start = [rng.randint(0, stop) for _ in range(dims)]
     else:
         stop = rng.randint(1, 6 if dims < 4 else 5)
         start = rng.choice([0, 0, 1, 2, rng.randint(0, stop)])
@@ -262,6 +266,18 @@ def gen_grid(rng):
         case["norm"] = rng.choice(NORMS)
     if rng.random() < 0.15:
         case["stop_only"] = True
+    has_vector = isinstance(stop, list) or (isinstance(start, list) and not case.get("stop_only"))
+    spellings = ["int", "int"]
+    if has_vector:
+        # the vector bound alone determines the number of dimensions
+        spellings += ["default", "one"] + (["none"] if fn == "monomial" else [])
+    if fn == "monomial":
+        spellings += ["names"] + (["str"] if dims == 1 else [])
+    case["dims_spelling"] = rng.choice(spellings)
+    if case["dims_spelling"] == "names":
+        case["names"] = rng.choice([["q%d" % (2 * i + 2) for i in range(dims)],
+                                    ["q%d" % (3 * i + 1) for i in range(dims)],
+                                    ["q%d" % (i + 9) for i in range(dims)]])
     if rng.random() < 0.35:
         # bounds spelled as numpy scalars / arrays (as taken from poly.exponents: uint32)
         case["bound_dtype"] = rng.choice(["uint8", "uint32", "int64", "uint64", "int32"])
@@ -330,21 +346,29 @@ def run_grid_case(case, ctx, kernel):
     ctx.evaluated((fn, dims, str(case["trunc"]), isinstance(stop, list), isinstance(start, list),
                    graded, reverse, kernel), len(want) >= 2)
     ctx.count("grid_calls")
+    spelling = case.get("dims_spelling", "int")
+    facts["dims_spelling"] = spelling
+    dimkw = {"int": {"dimensions": dims}, "default": {}, "one": {"dimensions": 1},
+             "none": {"dimensions": None}, "names": {"dimensions": tuple(case.get("names", ()))},
+             "str": {"dimensions": "q7"}}[spelling]
+    want_names = {"names": list(case.get("names", ())), "str": ["q7"]}.get(
+        spelling, ["q%d" % i for i in range(dims)])
+    ctx.count("dims_spelling_" + spelling)
     try:
         if fn == "glexindex":
             if case.get("stop_only"):
-                got = numpoly.glexindex(stop, dimensions=dims, cross_truncation=trunc_arg(case["trunc"]),
+                got = numpoly.glexindex(stop, cross_truncation=trunc_arg(case["trunc"]), **dimkw,
                                         graded=graded, reverse=reverse)
             else:
-                got = numpoly.glexindex(start, stop, dimensions=dims,
+                got = numpoly.glexindex(start, stop, **dimkw,
                                         cross_truncation=trunc_arg(case["trunc"]), graded=graded,
                                         reverse=reverse)
         elif fn == "bindex":
-            got = numpoly.bindex(start, stop, dimensions=dims, ordering=case["ordering"],
+            got = numpoly.bindex(start, stop, **dimkw, ordering=case["ordering"],
                                  cross_truncation=trunc_arg(case["trunc"]))
         else:
             ctx.count("monomial_calls")
-            poly = numpoly.monomial(start, stop, dimensions=dims,
+            poly = numpoly.monomial(start, stop, **dimkw,
                                     cross_truncation=trunc_arg(case["trunc"]), graded=graded,
                                     reverse=reverse)
             if tuple(poly.shape) != (len(want),):
@@ -354,9 +378,9 @@ def run_grid_case(case, ctx, kernel):
             got = []
             arr = M.abstract(poly)
             names = list(poly.names)
-            if len(names) != dims:
+            if names != want_names:
                 ctx.violation(dict(facts, failure="names"), f"monomial names {names} for {dims} "
-                                                            "dimensions", case)
+                              f"dimensions, expected {want_names}", case)
                 return
             for i in range(len(want)):
                 elem = arr[i]
